@@ -1162,6 +1162,27 @@ class Interp:
                 return self.call_native(f.target[0], f.target[1], f.recv, args, kwargs, node)
             if f.kind == 'bound':
                 return self.call_bound(f.target[0], f.target[1], f.recv, args, kwargs, node)
+            if f.kind == 'localfn':
+                fdef, cenv = f.target
+                params = [p.arg for p in fdef.args.args]
+                if len(args) > len(params) or any(k not in params for k in kwargs):
+                    raise SymRaise('TypeError', node, f'{fdef.name}() got unexpected arguments', where=self.where())
+                e2 = dict(cenv)
+                bound = dict(zip(params, args))
+                bound.update(kwargs)
+                nd = len(fdef.args.defaults)
+                for i, p in enumerate(params):
+                    if p not in bound:
+                        di = i - (len(params) - nd)
+                        if di < 0:
+                            raise SymRaise('TypeError', node, f'{fdef.name}() missing {p}', where=self.where())
+                        bound[p] = self.ev(fdef.args.defaults[di], cenv)
+                e2.update(bound)
+                try:
+                    self.exec_block(fdef.body, e2)
+                except _Return as r:
+                    return r.value
+                return NONE
             if f.kind == 'lambda':
                 lam, cenv = f.target
                 e2 = dict(cenv)
@@ -1807,7 +1828,12 @@ class Interp:
                 self.exec_block(st.finalbody, env)
 
     def st_FunctionDef(self, st, env):
-        env[st.name] = Opaque(f'local-function:{st.name}')
+        a = st.args
+        if st.decorator_list or a.vararg or a.kwarg or a.kwonlyargs or a.posonlyargs or \
+                any(isinstance(n, (ast.Yield, ast.YieldFrom)) for n in ast.walk(st)):
+            env[st.name] = Opaque(f'local-function:{st.name}')
+            return
+        env[st.name] = FuncV('localfn', (st, env))          # the enclosing environment is shared (closure)
 
     def st_ClassDef(self, st, env):
         env[st.name] = Opaque(f'local-class:{st.name}')
